@@ -41,22 +41,24 @@ const parserPkg = core.Module + "/internal/bcl/internal/parser"
 // DefaultTermConfig: JSON tokens and walker tag pops fail at the end of the
 // input; the BCL lexer and token walker keep returning their EOF sentinel.
 func DefaultTermConfig() TermConfig {
+	const parserRel = "internal/bcl/internal/parser"
+	an := core.AnchorFullName // follows a rename of the function
 	return TermConfig{
 		Primitives: map[string]bool{
-			"(*encoding/json.Decoder).Token":                                      true,
-			"(*encoding/json.Decoder).Decode":                                     true,
-			"(*" + core.Module + "/internal/bcl/internal/walker.popSet).popFirst": true,
+			"(*encoding/json.Decoder).Token":                      true,
+			"(*encoding/json.Decoder).Decode":                     true,
+			an("internal/bcl/internal/walker", "popSet.popFirst"): true,
 		},
 		Weak: map[string]bool{
-			"(*" + parserPkg + ".Walker).popToken": true,
-			"(*" + parserPkg + ".Lexer).next":      true,
+			an(parserRel, "Walker.popToken"): true,
+			an(parserRel, "Lexer.next"):      true,
 		},
 		Sentinels:    []string{"internal/bcl/internal/parser.lexerEofChr", "internal/bcl/internal/parser.EOF"},
 		SymbolFields: map[string]bool{"Lexer.ch": true, "Token.Type": true},
 		SymbolCalls: map[string]bool{
-			"(*" + parserPkg + ".Lexer).peek":      true,
-			"(*" + parserPkg + ".Walker).nextType": true,
-			"(*" + parserPkg + ".Walker).peekType": true,
+			an(parserRel, "Lexer.peek"):      true,
+			an(parserRel, "Walker.nextType"): true,
+			an(parserRel, "Walker.peekType"): true,
 		},
 		Table: "term_sites",
 	}
@@ -894,6 +896,36 @@ func mustConsume(sc *Scope, g *callgraph.Graph, prims map[string]bool) *consumeI
 		for cf, v := range closureSeen {
 			if v && !ci.inherited[cf] {
 				ci.inherited[cf] = true
+				changed = true
+			}
+		}
+		// an unexported function all of whose call sites (in the reachable set) are static
+		// calls made after the caller's frame consumed input is itself entered only after a
+		// consumption that belongs to this very invocation: what holds for a closure created
+		// after consumption holds for a block of code moved into a helper
+		for _, f := range sc.Funcs {
+			fn := f.SSA
+			if ci.inherited[fn] || fn.Parent() != nil || fn.Object() == nil || fn.Object().Exported() {
+				continue
+			}
+			n := g.Nodes[fn]
+			if n == nil || len(n.In) == 0 {
+				continue
+			}
+			all, any := true, false
+			for _, e := range n.In {
+				if e.Caller == nil || ci.byCanon[canonFn(e.Caller.Func)] == nil {
+					continue // caller outside the reachable set
+				}
+				any = true
+				c, isCall := e.Site.(*ssa.Call)
+				if !isCall || c.Common().StaticCallee() == nil || canonFn(c.Common().StaticCallee()) != canonFn(fn) || !ci.before[c] {
+					all = false
+					break
+				}
+			}
+			if all && any {
+				ci.inherited[fn] = true
 				changed = true
 			}
 		}
